@@ -136,7 +136,8 @@ func loadRegions(
 	f func(region *RegionInfo) []*RegionInfo,
 ) error {
 	nextID := uint64(0)
-	endKey := regionPath(math.MaxUint64)
+	// The end key of a range is exclusive: append a zero byte so that the largest id is included.
+	endKey := regionPath(math.MaxUint64) + "\x00"
 
 	// Since the region key may be very long, using a larger rangeLimit will cause
 	// the message packet to exceed the grpc message size limit (4MB). Here we use
@@ -170,7 +171,8 @@ func loadRegions(
 			}
 		}
 
-		if len(res) < rangeLimit {
+		// nextID wraps to 0 after the largest id: nothing can follow it.
+		if len(res) < rangeLimit || (len(res) > 0 && nextID == 0) {
 			return nil
 		}
 	}
